@@ -34,15 +34,19 @@ Record lst := mklst {
 Record lcfg := mklcfg {
   lc_d : dcfg;                    (* BlockingExecution, WorkerLimit *)
   lc_watch : option cmp_op;       (* watcher calls stopRun(run), which tests `sched.run <op> run`; None: calls Stop() *)
-  lc_add_first : bool             (* every wg.Add precedes its `go` statement *)
+  lc_add_first : bool;            (* every wg.Add precedes its `go` statement *)
+  lc_per_run : bool               (* Start makes the hand-over channel for its run (false: one channel shared by all runs) *)
 }.
 
 Definition code_lcfg (d : dcfg) : lcfg :=
   mklcfg d (if start_watcher_calls_stop_run then Some stop_run_cmp else None)
-         (start_loop_wg_add_before_go && workers_wg_add_before_go && goroutine_wg_add_before_go).
+         (start_loop_wg_add_before_go && workers_wg_add_before_go && goroutine_wg_add_before_go) dispatch_per_run.
 
 (* the scheduler as it was before the fix of S2: the watcher calls Stop() *)
-Definition prefix_lcfg (d : dcfg) : lcfg := mklcfg d None true.
+Definition prefix_lcfg (d : dcfg) : lcfg := mklcfg d None true true.
+
+(* the scheduler as it was before the fix 4ef8ad4: one dispatch channel for all runs *)
+Definition shared_lcfg (d : dcfg) : lcfg := mklcfg d (Some OpEq) true false.
 
 Inductive llabel :=
 | LStart | LStop
@@ -52,6 +56,8 @@ Inductive llabel :=
 | WorkerExit (r i : nat)
 | ExecStart (r : nat) (w : option nat)   (* an execution begins in run r (w: the worker, in pool mode) *)
 | ExecEnd (r : nat) (w : option nat)
+| StaleTake (r rw i : nat)     (* worker i of run rw receives the job that the loop of ANOTHER run r is handing over;
+                                  the job then runs with run rw's context *)
 | LateAdd
 | WaitReturn.                  (* wg.Wait() returns *)
 
@@ -154,6 +160,14 @@ Definition lstep (s : lst) (l : llabel) : option lst :=
           | Some DGoroutine, None => match r_gor x with S n => Some (done_wg (set_runs (upd_rec r (set_gor n) (l_runs s)) s)) | O => None end
           | _, _ => None end
       | None => None end
+  | StaleTake r rw i =>
+      if lc_per_run c || (r =? rw) then None      (* each run has its own channel *)
+      else match find_rec r (l_runs s), find_rec rw (l_runs s), pick_mode exec_modes (lc_d c) with
+           | Some x, Some y, Some DSendDispatch =>
+               match r_lp x, nth i (r_wk y) WkExited with
+               | LpIdle, WkIdle => Some (set_runs (upd_rec rw (set_wk (updw i WkExec (r_wk y))) (l_runs s)) s)
+               | _, _ => None end
+           | _, _, _ => None end
   | LateAdd => match l_late s with
                | S n => Some (mklst (l_started s) (l_run s) (l_cancel_of s) (l_runs s) (S (l_wg s)) n (l_want s))
                | O => None end
